@@ -341,3 +341,22 @@ func FrameWatch(objs ...interface{}) {
 
 // ---------------------------------------------------------------------------
 // text/template reference and abstract readers (C19)
+
+// ---------------------------------------------------------------------------
+// two-history harnesses (C15): the engine runs the harness twice, once with HistoryStep() false and
+// once true, on the same symbolic inputs, and requires every Observe value to be equal. Natively the
+// two runs are separate processes (VRT_PHASE=A / B) that write their observations to $VRT_OBSERVE.
+
+func HistoryStep() bool { return os.Getenv("VRT_PHASE") == "B" }
+
+func Observe(label string, v interface{}) {
+	if p := os.Getenv("VRT_OBSERVE"); p != "" {
+		mu.Lock()
+		defer mu.Unlock()
+		f, err := os.OpenFile(p, os.O_APPEND|os.O_CREATE|os.O_WRONLY, 0o644)
+		if err == nil {
+			fmt.Fprintf(f, "%s=%v\n", label, v)
+			f.Close()
+		}
+	}
+}
